@@ -6,6 +6,7 @@ import (
 	"fmt"
 	"regexp"
 	"strings"
+	"verif/harness/props/c04"
 
 	"github.com/runreveal/pql/parser"
 
@@ -83,6 +84,11 @@ func generate(w *mon.W) {
 				do("let n0 = 2; let n = "+v+"; let m = "+u+"; T | extend y = -m | sort by -m", nil)
 			}
 		}
+	}
+	// hostile contents in quoted names and strings placed at every token position
+	// of the skeleton programs (most do not compile; what does must be well formed)
+	for _, src := range c04.PlacementSources() {
+		do(src, nil)
 	}
 	rng := gen.RNG(w.Seed, "c05")
 	// typed expression programs
@@ -201,7 +207,9 @@ func Check(c *Case, r *mon.R, shapes map[string]bool) bool {
 	}
 	tables, asNames, calls, selfNamed := inventory(stmts)
 	for _, f := range calls {
-		if sqlmini.IsReserved(f) || !plainIdent.MatchString(f) {
+		// names the language can spell bare but SQL reads differently ($x, reserved words);
+		// any other shape of name is judged like the rest of the output
+		if sqlmini.IsReserved(f) || (strings.HasPrefix(f, "$") && plainIdent.MatchString("x"+f[1:])) {
 			r.Inconclusive("skipped_function_name_is_sql_syntax")
 			return false
 		}
